@@ -124,6 +124,7 @@ def generate(prop, seed, tier):
             "scale": core.r6(S.pick([1.0, 1.0, 1.3, 0.8])),
             "twin_perm": S.sub("perm", k) if k == twin_step else None,
             "container": S.wpick([("ndarray", 4), ("list", 1), ("dataframe", 2), ("fortran", 1)]),
+            "clone_before": S.chance(0.12),
             "fault": None,
         }
         steps.append(st)
@@ -146,7 +147,7 @@ def generate(prop, seed, tier):
         for p, dd in d["deps"].items():
             if dd["shape"] not in ("poly1", "scaled1") and k_target < 6:
                 d["deps"][p] = {"shape": "poly1", "slope": dd["slope"], "bounds": None}
-    return {"engine": NAME, "property": prop, "seed": seed, "cond": cond, "dims": dims, "slicers": slicers, "steps": steps}
+    return {"engine": NAME, "property": prop, "seed": seed, "cond": cond, "dims": dims, "slicers": slicers, "steps": steps, "reuse_fit_desc": S.chance(0.4)}
 
 
 # --------------------------------------------------------------------------
@@ -599,6 +600,10 @@ def execute(prop, scen):
         B = build_model(scen, hint)
         run.event("build", [scen["cond"]], None)
         failed_before = False
+        # the caller may hand the *same* fit-description list to every fit call (the model fills in
+        # defaults in place, so the second call sees what the first one left)
+        shared_fd_a = copy.deepcopy(fit_desc_of(scen))
+        shared_fd_b = copy.deepcopy(fit_desc_of(scen))
         for si, st in enumerate(scen["steps"]):
             D = make_data(scen, st)
             Db = D
@@ -611,13 +616,16 @@ def execute(prop, scen):
             seams.pin_global(core.h64(scen["seed"], si))
             with seams.OptimiserShim(fail_at=fail_at) as shim:
                 try:
-                    A.fit(_as_container(D, st.get("container", "ndarray")), copy.deepcopy(fit_desc_of(scen)))
+                    if st.get("clone_before") and si > 0:
+                        A = copy.deepcopy(A)  # the user continues with a deep copy of the fitted model
+                        run.count("probe:continued-on-deep-copy")
+                    A.fit(_as_container(D, st.get("container", "ndarray")), shared_fd_a if scen.get("reuse_fit_desc") else copy.deepcopy(fit_desc_of(scen)))
                 except Exception as e:  # noqa: BLE001
                     excA = e
             firedA = shim.fired
             with seams.OptimiserShim(fail_at=fail_at) as shim:
                 try:
-                    B.fit(Db.copy(), copy.deepcopy(fit_desc_of(scen)))
+                    B.fit(Db.copy(), shared_fd_b if scen.get("reuse_fit_desc") else copy.deepcopy(fit_desc_of(scen)))
                 except Exception as e:  # noqa: BLE001
                     excB = e
             fired = bool(firedA) or (f is not None and f["kind"].startswith("F2"))
@@ -729,5 +737,5 @@ def describe(prop):
             "rows within 1e-9 x scale of an interval edge may fall on either side (edge conventions are C10's subject)",
             "with rounded data (ties) and PointsPerIntervalSlicer, rows tying with a chunk edge may swap sides between row orders",
         ],
-        "probes": ["refit", "twin-permuted-step", "clean-fit-after-failed-fit", "rejected-data-accepted", "chained-dependence-checked"],
+        "probes": ["refit", "twin-permuted-step", "clean-fit-after-failed-fit", "rejected-data-accepted", "chained-dependence-checked", "continued-on-deep-copy"],
     }
